@@ -4,6 +4,8 @@ import (
 	"fmt"
 
 	ad "github.com/pbenner/autodiff"
+	vd "github.com/pbenner/autodiff/statistics/vectorDistribution"
+	ve "github.com/pbenner/autodiff/statistics/vectorEstimator"
 	"verif/sim/core"
 	"verif/sim/ticks"
 )
@@ -28,15 +30,15 @@ var elemTypes = []struct {
 }
 
 type mis struct {
-	c      *core.Ctx
-	e      int
-	sparse bool
-	root   ad.Matrix
-	R, C   int
-	view   ad.Matrix
+	c              *core.Ctx
+	e              int
+	sparse         bool
+	root           ad.Matrix
+	R, C           int
+	view           ad.Matrix
 	r0, r1, c0, c1 int
-	transposed bool
-	vr, vc int // dims of the view
+	transposed     bool
+	vr, vc         int // dims of the view
 }
 
 func (w *mis) class() string {
@@ -183,7 +185,7 @@ func (w *mis) op() {
 		}
 		return a
 	}
-	kind := t.Choose(19)
+	kind := t.Choose(22)
 	name := ""
 	switch kind {
 	case 0, 1: // element read outside the view
@@ -621,6 +623,154 @@ func (w *mis) op() {
 		}
 		// the view's shape may have changed legitimately: re-create it
 		w.view = w.root.Slice(w.r0, w.r1, w.c0, w.c1)
+		return
+	case 19: // vector products / sums with shapes that do not fit, incl. empty matrices
+		// The library is generated from templates per element type, so whether an
+		// inadmissible call is reported cannot depend on the element type: the
+		// same call is made for every type of a template family and must be
+		// loud for all or for none.
+		sparseRecv := t.Bool(1, 2)
+		how := t.Choose(4)
+		name = []string{"MdotV", "VdotM", "VaddV", "VmulV"}[how]
+		n, mm := t.Range(0, 3), t.Range(0, 3)
+		rd, od := n, mm // fitting dimensions of receiver and vector operand for MdotV
+		if how == 1 {
+			rd, od = mm, n
+		}
+		if how >= 2 {
+			od = rd
+		}
+		// break exactly one of them
+		if t.Bool(1, 2) {
+			rd += t.Range(1, 2)
+		} else {
+			od += t.Range(1, 2)
+		}
+		c.Logf("%s: receiver (%s) of dimension %d, matrix %dx%d, vector operand of dimension %d", name, map[bool]string{true: "sparse", false: "dense"}[sparseRecv], rd, n, mm, od)
+		outcome := map[string][]string{}
+		for ei, et := range elemTypes {
+			var r ad.Vector
+			if sparseRecv {
+				r = ad.NullSparseVector(et.t, rd)
+			} else {
+				r = ad.NullDenseVector(et.t, rd)
+			}
+			a := ad.NullDenseMatrix(et.t, n, mm)
+			b := ad.NullDenseVector(et.t, od)
+			b2 := ad.NullDenseVector(et.t, od+1)
+			for q := 0; q < od; q++ {
+				b.At(q).SetFloat64(1)
+			}
+			res := try(func() error {
+				switch how {
+				case 0:
+					r.MdotV(a, b)
+				case 1:
+					r.VdotM(b, a)
+				case 2:
+					r.VaddV(b, b2)
+				default:
+					r.VmulV(b, b2)
+				}
+				return nil
+			})
+			fam := "plain"
+			if et.name == "real64" || et.name == "real32" {
+				fam = "real"
+			}
+			o := "silent"
+			if loud(res) {
+				o = "loud"
+			}
+			outcome[fam+":"+o] = append(outcome[fam+":"+o], et.name)
+			_ = ei
+		}
+		for _, fam := range []string{"plain", "real"} {
+			if l, q := outcome[fam+":loud"], outcome[fam+":silent"]; len(l) > 0 && len(q) > 0 {
+				w.fail("loud-failure", name+"|shape-mismatch|reported-for-some-element-types-only", "%s with a receiver of dimension %d, a %dx%d matrix and a vector operand of dimension %d is reported for the element types %v but silently accepted for %v", name, rd, n, mm, od, l, q)
+			}
+		}
+		c.Count("misuse:shape-mismatch-across-element-types")
+		return
+	case 20: // state restrictions of an HMM outside the model
+		m := t.Range(2, 3)
+		pi := ad.NullDenseFloat64Vector(m)
+		tr := ad.NullDenseFloat64Matrix(m, m)
+		for i := 0; i < m; i++ {
+			pi.At(i).SetFloat64(1)
+			for j := 0; j < m; j++ {
+				tr.At(i, j).SetFloat64(float64(1 + (i+j)%2))
+			}
+		}
+		h, err := vd.NewHmm(pi, tr, nil, nil)
+		if err != nil {
+			break
+		}
+		list := []int{t.Choose(m), m + t.Range(0, 3)}
+		if t.Bool(1, 2) {
+			list[0], list[1] = list[1], list[0]
+		}
+		final := t.Bool(1, 2)
+		name = "Hmm.SetStartStates"
+		if final {
+			name = "Hmm.SetFinalStates"
+		}
+		c.Logf("%s(%v) on a model with %d states", name, list, m)
+		cfg0 := fmt.Sprint(h.Hmm.ExportConfig())
+		res := try(func() error {
+			if final {
+				return h.SetFinalStates(list)
+			}
+			return h.SetStartStates(list)
+		})
+		if !loud(res) {
+			silent(name+"-outside-the-model", fmt.Sprintf("%s(%v) on a model with %d states", name, list, m))
+		}
+		if cfg1 := fmt.Sprint(h.Hmm.ExportConfig()); cfg1 != cfg0 {
+			w.fail("not-corrupted", name+"|receiver-changed-by-a-rejected-call", "%s(%v) was rejected, but the model it was called on has changed: %s -> %s", name, list, cfg0, cfg1)
+		}
+		c.Count("misuse:invalid-state-restriction")
+		return
+	case 21: // data of inconsistent dimension handed to an estimator
+		sparse := t.Bool(1, 2)
+		dim := t.Range(1, 3)
+		nrec := t.Range(2, 5)
+		badAt := 1 + t.Choose(nrec-1) // never the first one
+		name = "LogisticRegression.SetData"
+		c.Logf("%s (sparse=%v): %d records of dimension %d, record %d has another dimension", name, sparse, nrec, dim+2, badAt)
+		recs := make([]ad.ConstVector, nrec)
+		for i := range recs {
+			d := dim + 2
+			if i == badAt {
+				d += t.Range(1, 2)
+			}
+			v := make([]float64, d)
+			v[0] = 1
+			for q := 1; q < d-1; q++ {
+				v[q] = float64(q)
+			}
+			v[d-1] = float64(i % 2)
+			if sparse {
+				idx, val := []int{}, []float64{}
+				for q, x := range v {
+					if x != 0 {
+						idx, val = append(idx, q), append(val, x)
+					}
+				}
+				recs[i] = ad.NewSparseConstFloat64Vector(idx, val, d)
+			} else {
+				recs[i] = ad.NewDenseFloat64Vector(v)
+			}
+		}
+		est, err := ve.NewLogisticRegression(dim+1, sparse)
+		if err != nil {
+			break
+		}
+		res := try(func() error { return est.SetData(recs, nrec) })
+		if !loud(res) {
+			silent(name+"-inconsistent-dimensions", fmt.Sprintf("SetData with %d records of which record %d has another dimension", nrec, badAt))
+		}
+		c.Count("misuse:inconsistent-data")
 		return
 	}
 	w.after(name, before, kind >= 2 && kind != 16 && kind != 17)
